@@ -4,7 +4,8 @@
 Where tools/gen.py samples, this enumerates: for every collection / combinator type a few small
 configurations and, for each, EVERY sequence of ops of a given length over a small alphabet
 (polls with and without hook-point injections, environment wakes through cloned wakers, pushes of
-a few child scripts, observers, drop).  Nothing is random; the same arguments give the same file.
+a few child scripts, observers, drop); the sequences over the core alphabet read the observers
+(len, is_empty, capacity, size_hint, is_terminated) after every op.  Nothing is random; the same arguments give the same file.
 This is bounded exhaustive testing of the tie between model and code (and a search space for the
 monitors), not a proof: the theorems are in coq/.
 
@@ -137,6 +138,8 @@ def histories(typ, level):
                     if "{id}" in x:
                         x = x.replace("{id}", str(nid)); nid += 1
                     L.append(x)
+                    if core and x != "dropcoll":
+                        L.append("obs")     # the core sequences read the observers in every state they reach
                 if "dropcoll" not in names:
                     L.append("dropcoll")
                 L += ["cleanup", "endhist"]
